@@ -89,6 +89,18 @@ const c13TypedJSON = `{"parser_settings": {"version": "omni.2.1", "file_format_t
  "transform_declarations": {"FINAL_OUTPUT": {"xpath": "/*", "object": {"id": {"xpath": "id"}}}}}`
 const c13TypedJSONInput = `[{"id": 1, "qty": 2.5, "ok": true, "none": null, "tags": [1, 2, 3], "o": {"n": 7, "b": false}}, {"id": 2, "qty": 0, "ok": false, "tags": [4, 5], "o": {"n": 8}}]`
 
+// a script that throws for one record, and a script that reads a global it is not given: with the VM pool on it must see
+// what it sees with the pool off (nothing)
+const c13JSThrow = `{"parser_settings": {"version": "omni.2.1", "file_format_type": "xml"},
+ "transform_declarations": {"FINAL_OUTPUT": {"xpath": "/root/rec", "object": {"id": {"xpath": "@id"},
+   "a_probe": ` + jsProbe + `, "b_code": ` + jsThrow + `,
+   "c_ctx": {"custom_func": {"name": "javascript_with_context", "args": [{"const": "if (JSON.parse(_node).code == 'BAD-ctx') { throw 'ctx' }; typeof secret === 'undefined' ? 'clean' : 'LEAK:' + secret"}]}},
+   "d_plain": {"custom_func": {"name": "javascript", "args": [{"const": "typeof _node === 'undefined' ? 'no _node' : 'LEAK: sees _node'"}]}},
+   "e_secret": {"custom_func": {"name": "javascript", "args": [{"const": "if (secret == 's3') { throw 'secret' }; 'ok'"}, {"const": "secret"}, {"xpath": "s"}]}}}}}}`
+// the same with the throwing records last: whatever a failed call leaves behind is still there when the next transform starts
+const c13JSThrowLastInput = `<root><rec id="1"><code>k1</code><s>s1</s></rec><rec id="2"><s>s2</s></rec><rec id="3"><code>BAD-secret</code><s>s9</s></rec><rec id="4"><s>s3</s></rec></root>`
+const c13JSThrowInput = `<root><rec id="1"><code>k1</code><s>s1</s></rec><rec id="2"><code>BAD-secret</code><s>s2</s></rec><rec id="3"><s>s3</s></rec><rec id="4"><code>BAD-ctx</code><s>s4</s></rec><rec id="5"><s>s5</s></rec><rec id="6"><code>k6</code></rec></root>`
+
 func c13Corpus() ([]*corpusItem, error) {
 	items, err := multiRunCorpus(false)
 	if err != nil {
@@ -98,6 +110,8 @@ func c13Corpus() ([]*corpusItem, error) {
 		{Name: "c13/identical-decls-templates-dynamic", Format: "xml", Schema: []byte(c13Collide), Input: []byte(c13CollideInput)},
 		{Name: "c13/js-on-record", Format: "xml", Schema: []byte(c13JSRecord), Input: []byte(c13JSRecordInput)},
 		{Name: "c13/js-on-ancestor", Format: "xml", Schema: []byte(c13JSAncestor), Input: []byte(c13JSRecordInput)},
+		{Name: "c13/js-throw-then-probe", Format: "xml", Schema: []byte(c13JSThrow), Input: []byte(c13JSThrowInput)},
+		{Name: "c13/js-throw-last", Format: "xml", Schema: []byte(c13JSThrow), Input: []byte(c13JSThrowLastInput)},
 		{Name: "c13/ancestor-anchored-with-failing-records", Format: "xml", Schema: []byte(c13Ancestor), Input: []byte(c13AncestorInput)},
 	}
 	for _, it := range extra {
